@@ -7,8 +7,9 @@ Lean cannot model GCC's constant evaluator (DESIGN §6).  What is proved here:
    (`gen/dispatch.py`): every function with two code paths is bound to ONE specification — each builtin it calls is
    one that is assumed to implement that specification and each callee on the other path is tied to that same
    specification (`dispatch_consistent`); the functions the property names are all present
-   (`dispatch_covers_anchors`); the only exactly-specified function whose two *simultaneously live* paths are
-   known to differ is `fma` (`dispatch_divergent_is_fma`); every callee marked `proved` names a theorem below
+   (`dispatch_covers_anchors`); the exactly-specified functions whose two *simultaneously live* paths are known to
+   differ are `fma` (finding of this property) and `fmod`, `remainder` (gcem::fmod, finding of property C16) and no
+   other (`dispatch_divergent_are_known`); every callee marked `proved` names a theorem below
    (`proved_callees_have_theorems`);
 2. for each such pair, for ALL inputs: the model of tetl's own code on one path returns — without an out-of-bounds
    read, overflow or other undefined behaviour (`= .ok …`) — exactly the value of the specification of the builtin
@@ -19,8 +20,11 @@ Lean cannot model GCC's constant evaluator (DESIGN §6).  What is proved here:
 
 The tie of both paths to these models/specifications is the three-way correspondence run of checks/props/c13.py.
 -/
+import Tetl.C13.Spec
 import TetlProofs.C13.Lemmas
 import TetlProofs.C13.LemmasSafe
+import TetlProofs.C13.GcemValue
+import TetlProofs.C13.GcemRound
 import TetlProofs.C14.Props
 import TetlProofs.C18.Props
 namespace Tetl.C13.Props
@@ -36,8 +40,12 @@ theorem dispatch_consistent : ∀ e ∈ dispatch, entryOk e = true := by decide
 theorem dispatch_covers_anchors : ∀ n ∈ expectedFns, n ∈ dispatch.map (·.fn) := by decide
 
 /-- Among the entries whose two paths are live in the same program (`is_constant_evaluated()` switch) and whose
-    result is exactly specified, the only one with a callee known to differ from the specification is `fma`. -/
-theorem dispatch_divergent_is_fma : divergentIce dispatch = ["fma"] := by decide
+    result is exactly specified, the ones with a callee known to differ from the specification are exactly
+    `fma` (two roundings, F-c13-fma-constexpr-double-rounding) and — since the run-time paths of `fmod` and
+    `remainder` call the libm builtins (dda5d6c, f1c8460) — `fmod` and `remainder`, whose constant-evaluated path is
+    gcem's `x - trunc(x / y) * y` (F-C16-gcem-fmod-constexpr, recorded and exercised by property C16).
+    (Until the C16 fixes this list was `["fma"]`: fmod and remainder ran gcem on both paths.) -/
+theorem dispatch_divergent_are_known : divergentIce dispatch = ["fma", "fmod", "remainder"] := by decide
 
 /-- Every callee marked `proved` in `Spec.calleeTable` names its theorem in `Spec.proofOf`. -/
 theorem proved_callees_have_theorems : provedHaveProofs = true := by decide
@@ -174,6 +182,18 @@ theorem copysign_spec (f : Fmt) (x y : Nat) (hx : x < 2 ^ f.width) (hy : y < 2 ^
 example : Model.copysignFallback f32 0 0xbf800000 = FSpec.copysign f32 0 0xbf800000 :=
   (copysign_spec f32 _ _ (by decide) (by decide)).1 (by decide)
 
+/-- signbit: `detail::signbit_fallback` (the alternative where `__builtin_signbit` is missing; 4- and 8-byte
+    formats) shifts the sign bit of the representation down: the specification of the builtin, for ±0 and NaNs too -/
+theorem signbit_paths (f : Fmt) (b : Nat) (hb : b < 2 ^ f.width) : Model.signbitFallback f b = FSpec.signbit f b := by
+  have hW := signW_pos f
+  rw [two_signW] at hb
+  have hq : b / f.signW < 2 := (Nat.div_lt_iff_lt_mul hW).2 (by omega)
+  unfold Model.signbitFallback FSpec.signbit Fmt.sign
+  generalize b / f.signW = q at *
+  have : q = 0 ∨ q = 1 := by omega
+  rcases this with rfl | rfl <;> decide
+example : Model.signbitFallback f32 0xffc00000 = FSpec.signbit f32 0xffc00000 := signbit_paths f32 _ (by decide)
+
 /-- signbit (a builtin on both paths since the fix): the specification is the sign bit, and negation flips it —
     for zeros and NaNs too -/
 theorem signbit_neg (f : Fmt) (b : Nat) (hb : b < 2 ^ f.width) :
@@ -184,6 +204,30 @@ theorem signbit_neg (f : Fmt) (b : Nat) (hb : b < 2 ^ f.width) :
   rcases hs with h | h <;> simp [h]
 example : FSpec.signbit f64 (f64.neg 0) = !FSpec.signbit f64 0 := signbit_neg f64 0 (by decide)
 
+/-! ## 2a. the constant-evaluated rounding functions: gcem's code computes the specification of the builtin
+
+`Model.gcemFloor` … model gcem's `floor_check` … operation by operation (every comparison, the conversion to
+`long long`, every floating-point subtraction / addition with its IEEE rounding).  For every pattern of a standard
+format they return — without reaching an out-of-range conversion — the bit-level specification `FSpec.roundTo`, which
+is what `__builtin_floor{f,}` … on the run-time path are bound to.  (`FSpec.roundTo` is proved equal to property
+C16's specification in TetlProofs/C16/Bridge.lean, and that one is proved to be ⌊x⌋, ⌈x⌉, … in TetlProofs/C16.) -/
+theorem floor_paths (f : Fmt) (h : Std f) (b : Nat) (hb : b < 2 ^ f.width) :
+    Model.gcemFloor f b = .ok (FSpec.roundTo f .floor b) := gcemFloor_value f h b hb
+example : Model.gcemFloor f32 0xaedbe6ff = .ok (FSpec.roundTo f32 .floor 0xaedbe6ff) := floor_paths f32 std_f32 _ (by decide)
+theorem ceil_paths (f : Fmt) (h : Std f) (b : Nat) (hb : b < 2 ^ f.width) :
+    Model.gcemCeil f b = .ok (FSpec.roundTo f .ceil b) := gcemCeil_value f h b hb
+example : Model.gcemCeil f32 0xbf000000 = .ok (FSpec.roundTo f32 .ceil 0xbf000000) := ceil_paths f32 std_f32 _ (by decide)
+theorem trunc_paths (f : Fmt) (h : Std f) (b : Nat) (hb : b < 2 ^ f.width) :
+    Model.gcemTrunc f b = .ok (FSpec.roundTo f .trunc b) := gcemTrunc_value f h b hb
+example : Model.gcemTrunc f64 0xC3E0000000000001 = .ok (FSpec.roundTo f64 .trunc 0xC3E0000000000001) :=
+  trunc_paths f64 std_f64 _ (by decide)
+/-- gcem::round (`sgn(x) * T(find_whole(abs(x)))`, `find_whole` through `floor_check`, a float subtraction, the
+    comparison with 0.5 and two conversions to `long long`).  `2 ≤ bias`: 0.5 is a normal number (binary32, binary64;
+    false for the toy format (2,1), see the `decide` example in TetlProofs/C13/GcemRound.lean). -/
+theorem round_paths (f : Fmt) (h : Std f) (h2 : 2 ≤ f.bias) (b : Nat) (hb : b < 2 ^ f.width) :
+    Model.gcemRound f b = .ok (FSpec.roundTo f .round b) := gcemRound_value f h h2 b hb
+example : Model.gcemRound f32 0x3effffff = .ok (FSpec.roundTo f32 .round 0x3effffff) :=
+  round_paths f32 std_f32 bias2_f32 _ (by decide)
 /-! ## 2b. constant evaluation succeeds on the whole domain (model level): no conversion to `long long` out of range
 
 `Std f` holds for binary32 and binary64 (`std_f32`, `std_f64`).  Before the fixes of fix-c13 these statements were
